@@ -2,6 +2,7 @@ import MD.Proofs.Unique
 import MD.Proofs.ExpectileInst
 import MD.Proofs.QuantStage
 import MD.Proofs.PavaEq
+import MD.Proofs.IsoRegLemmas
 import Mathlib.Tactic.Linarith
 import Mathlib.Tactic.Ring
 import Mathlib.Tactic.FieldSimp
@@ -589,5 +590,528 @@ theorem gpava_idempotent_bounds (hT : Internal ok T)
   exact h1.unique (gpava_contract hT ys hys).2.1
 
 end Contract
+
+/-! ## 4. Transport of `gpava` along a strictly increasing map of the values -/
+
+section Transport
+variable {K : Type} [Field K] [LinearOrder K] [IsStrictOrderedRing K] {ok : Obs K → Prop}
+
+/-- image of a block: data mapped by `g`, value mapped by `φ` -/
+def mapBlk (g : Obs K → Obs K) (φ : K → K) (b : Blk K) : Blk K := ⟨b.data.map g, φ b.val⟩
+
+variable {φ : K → K} {g : Obs K → Obs K} {T T' : List (Obs K) → K}
+
+theorem absorb_map (hφ : StrictMono φ) (hg1 : ∀ o, (g o).1 = φ o.1)
+    (hTT : ∀ S, S ≠ [] → (∀ o ∈ S, ok o) → T' (S.map g) = φ (T S))
+    (cur : Blk K) (l : List (Obs K)) (hc : BlkOK ok cur) (hl : ∀ o ∈ l, ok o) :
+    absorb T' (mapBlk g φ cur) (l.map g)
+      = (mapBlk g φ (absorb T cur l).1, (absorb T cur l).2.map g) := by
+  induction l generalizing cur with
+  | nil => simp [absorb]
+  | cons p rest ih =>
+    have hp : ok p := hl p (by simp)
+    have hnew : BlkOK ok ⟨cur.data ++ [p], T (cur.data ++ [p])⟩ :=
+      ⟨by simp, ok_append hc.2 (by simpa using hp)⟩
+    have hT : T' ((cur.data ++ [p]).map g) = φ (T (cur.data ++ [p])) := hTT _ (by simp) hnew.2
+    have hcmp : (g p).1 ≤ (mapBlk g φ cur).val ↔ p.1 ≤ cur.val := by
+      rw [hg1]; exact hφ.le_iff_le
+    rw [List.map_cons]
+    by_cases hle : p.1 ≤ cur.val
+    · have hle' := hcmp.mpr hle
+      simp only [absorb, if_pos hle, if_pos hle']
+      rw [← ih _ hnew (fun o ho => hl o (by simp [ho]))]
+      congr 1
+      simp only [mapBlk, List.map_append, List.map_cons, List.map_nil] at hT ⊢
+      rw [hT]
+    · have hle' : ¬ (g p).1 ≤ (mapBlk g φ cur).val := fun h => hle (hcmp.mp h)
+      simp only [absorb, if_neg hle, if_neg hle', List.map_cons]
+
+theorem mergeBack_map (hφ : StrictMono φ)
+    (hTT : ∀ S, S ≠ [] → (∀ o ∈ S, ok o) → T' (S.map g) = φ (T S))
+    (cur : Blk K) (st : List (Blk K)) (hc : BlkOK ok cur) (hs : ∀ b ∈ st, BlkOK ok b) :
+    mergeBack T' (mapBlk g φ cur) (st.map (mapBlk g φ))
+      = (mapBlk g φ (mergeBack T cur st).1, (mergeBack T cur st).2.map (mapBlk g φ)) := by
+  induction st generalizing cur with
+  | nil => simp [mergeBack]
+  | cons top st ih =>
+    have htop : BlkOK ok top := hs top (by simp)
+    have hnew : BlkOK ok ⟨top.data ++ cur.data, T (top.data ++ cur.data)⟩ :=
+      ⟨by simp [htop.1], ok_append htop.2 hc.2⟩
+    have hT : T' ((top.data ++ cur.data).map g) = φ (T (top.data ++ cur.data)) :=
+      hTT _ (by simp [htop.1]) hnew.2
+    have hcmp : (mapBlk g φ cur).val ≤ (mapBlk g φ top).val ↔ cur.val ≤ top.val := hφ.le_iff_le
+    rw [List.map_cons]
+    by_cases hle : cur.val ≤ top.val
+    · have hle' := hcmp.mpr hle
+      simp only [mergeBack, if_pos hle, if_pos hle']
+      rw [← ih _ hnew (fun b hb => hs b (by simp [hb]))]
+      congr 1
+      simp only [mapBlk, List.map_append] at hT ⊢
+      rw [hT]
+    · have hle' : ¬ (mapBlk g φ cur).val ≤ (mapBlk g φ top).val := fun h => hle (hcmp.mp h)
+      simp only [mergeBack, if_neg hle, if_neg hle', List.map_cons]
+
+theorem loop_map (hφ : StrictMono φ) (hg1 : ∀ o, (g o).1 = φ o.1)
+    (hTT : ∀ S, S ≠ [] → (∀ o ∈ S, ok o) → T' (S.map g) = φ (T S))
+    (st : List (Blk K)) (rest : List (Obs K)) (hs : ∀ b ∈ st, BlkOK ok b)
+    (hr : ∀ o ∈ rest, ok o) :
+    loop T' (st.map (mapBlk g φ)) (rest.map g) = (loop T st rest).map (mapBlk g φ) := by
+  have hsingle : ∀ p : Obs K, (⟨[g p], (g p).1⟩ : Blk K) = mapBlk g φ ⟨[p], p.1⟩ := by
+    intro p; simp [mapBlk, hg1]
+  have hid : ∀ S, S ≠ [] → (∀ o ∈ S, ok o) → T S = T S := fun _ _ _ => rfl
+  fun_induction loop T st rest with
+  | case1 st => simp [loop]
+  | case2 p rest' ih =>
+    have hp : ok p := hr p (by simp)
+    have hb1 : ∀ b ∈ [(⟨[p], p.1⟩ : Blk K)], BlkOK ok b := by
+      intro b hb
+      rw [List.mem_singleton] at hb
+      subst hb
+      exact blkOK_single hp
+    rw [← ih hb1 (fun o ho => hr o (by simp [ho]))]
+    simp only [List.map_nil, List.map_cons]
+    rw [loop, hsingle]
+  | case3 p rest' top st hle r1 r2 hlt ih =>
+    have hp : ok p := hr p (by simp)
+    have htop : BlkOK ok top := hs top (by simp)
+    have hnew : BlkOK ok ⟨top.data ++ [p], T (top.data ++ [p])⟩ :=
+      ⟨by simp, ok_append htop.2 (by simpa using hp)⟩
+    have hT : T' ((top.data ++ [p]).map g) = φ (T (top.data ++ [p])) := hTT _ (by simp) hnew.2
+    have hrest : ∀ o ∈ rest', ok o := fun o ho => hr o (by simp [ho])
+    have hst : ∀ b ∈ st, BlkOK ok b := fun b hb => hs b (by simp [hb])
+    obtain ⟨_, a2, a3⟩ := absorb_congr hid _ rest' hnew hrest
+    obtain ⟨_, m2, m3⟩ := mergeBack_congr hid r1.1 st a2 hst
+    have hih := ih (by
+      intro b hb
+      rcases List.mem_cons.mp hb with rfl | hb
+      · exact m2
+      · exact m3 b hb) a3
+    rw [← hih]
+    have hle' : (g p).1 ≤ (mapBlk g φ top).val := by
+      rw [hg1]; exact hφ.le_iff_le.mpr hle
+    have e0 : (⟨(mapBlk g φ top).data ++ [g p], T' ((mapBlk g φ top).data ++ [g p])⟩ : Blk K)
+        = mapBlk g φ ⟨top.data ++ [p], T (top.data ++ [p])⟩ := by
+      simp only [mapBlk, List.map_append, List.map_cons, List.map_nil] at hT ⊢
+      rw [hT]
+    simp only [List.map_cons]
+    rw [loop, if_pos hle']
+    simp only []
+    rw [e0, absorb_map hφ hg1 hTT _ rest' hnew hrest]
+    simp only []
+    rw [mergeBack_map hφ hTT r1.1 st a2 hst]
+  | case4 p rest' top st hnle ih =>
+    have hp : ok p := hr p (by simp)
+    have hnle' : ¬ (g p).1 ≤ (mapBlk g φ top).val := by
+      rw [hg1]; exact fun h => hnle (hφ.le_iff_le.mp h)
+    have hnew : ∀ b ∈ (⟨[p], p.1⟩ : Blk K) :: top :: st, BlkOK ok b := by
+      intro b hb
+      rcases List.mem_cons.mp hb with rfl | hb
+      · exact blkOK_single hp
+      · exact hs b hb
+    rw [← ih hnew (fun o ho => hr o (by simp [ho]))]
+    simp only [List.map_cons]
+    rw [loop, if_neg hnle', hsingle]
+
+/-- **transport lemma**: if `T'` on the mapped data is `φ ∘ T` for a strictly increasing `φ`, the
+generalised PAVA on the mapped data has the same blocks, with values mapped by `φ` -/
+theorem gpava_map (φ : K → K) (hφ : StrictMono φ) (g : Obs K → Obs K)
+    (hg1 : ∀ o, (g o).1 = φ o.1) (T T' : List (Obs K) → K)
+    (hTT : ∀ S, S ≠ [] → (∀ o ∈ S, ok o) → T' (S.map g) = φ (T S))
+    (ys : List (Obs K)) (hys : ∀ o ∈ ys, ok o) :
+    gpava T' (ys.map g) = (gpava T ys).map (fun b => ⟨b.data.map g, φ b.val⟩) := by
+  have h := loop_map hφ hg1 hTT [] ys (by simp) hys
+  simp only [List.map_nil] at h
+  unfold gpava
+  rw [h, List.map_reverse]
+  rfl
+
+
+theorem expand_mapBlk (g : Obs K → Obs K) (φ : K → K) (bs : List (Blk K)) :
+    expand (bs.map (fun b => (⟨b.data.map g, φ b.val⟩ : Blk K))) = (expand bs).map φ := by
+  induction bs with
+  | nil => simp [expand]
+  | cons b bs ih =>
+    simp only [List.map_cons]
+    rw [expand_cons, expand_cons, ih]
+    simp
+
+
+theorem bounds_mapBlk (g : Obs K → Obs K) (φ : K → K) (bs : List (Blk K)) :
+    bounds (bs.map (fun b => (⟨b.data.map g, φ b.val⟩ : Blk K))) = bounds bs := by
+  unfold bounds
+  rw [List.foldl_map]
+  simp
+
+end Transport
+
+/-! ## 4b. How the functionals transform -/
+
+section Instances
+variable {K : Type} [Field K] [LinearOrder K] [IsStrictOrderedRing K]
+
+theorem affine_strictMono (a b : K) (ha : 0 < a) : StrictMono (fun v : K => a * v + b) := by
+  intro u v h
+  have := mul_lt_mul_of_pos_left h ha
+  simp only
+  linarith
+
+theorem affine_le_iff (a b : K) (ha : 0 < a) (u v : K) : a * u + b ≤ a * v + b ↔ u ≤ v :=
+  (affine_strictMono a b ha).le_iff_le
+
+/-! ### weighted mean -/
+
+theorem wsum_map_affine (a b : K) (S : List (Obs K)) :
+    wsum (S.map fun o => (a * o.1 + b, o.2)) = wsum S := by
+  simp [wsum, Function.comp_def]
+
+theorem wysum_map_affine (a b : K) (S : List (Obs K)) :
+    wysum (S.map fun o => (a * o.1 + b, o.2)) = a * wysum S + b * wsum S := by
+  induction S with
+  | nil => simp [wysum, wsum]
+  | cons o S ih =>
+    simp only [List.map_cons, wysum_cons, wsum_cons, ih]
+    ring
+
+theorem wmean_affine (a b : K) (S : List (Obs K)) (hne : S ≠ []) (hpos : ∀ o ∈ S, 0 < o.2) :
+    wmean (S.map fun o => (a * o.1 + b, o.2)) = a * wmean S + b := by
+  have hW := wsum_pos hne hpos
+  unfold wmean
+  rw [wsum_map_affine, wysum_map_affine]
+  field_simp
+
+theorem wsum_map_scale (c : K) (S : List (Obs K)) :
+    wsum (S.map fun o => (o.1, c * o.2)) = c * wsum S := by
+  induction S with
+  | nil => simp [wsum]
+  | cons o S ih => simp only [List.map_cons, wsum_cons, ih]; ring
+
+theorem wysum_map_scale (c : K) (S : List (Obs K)) :
+    wysum (S.map fun o => (o.1, c * o.2)) = c * wysum S := by
+  induction S with
+  | nil => simp [wysum]
+  | cons o S ih => simp only [List.map_cons, wysum_cons, ih]; ring
+
+theorem wmean_scale (c : K) (hc : 0 < c) (S : List (Obs K)) :
+    wmean (S.map fun o => (o.1, c * o.2)) = wmean S := by
+  unfold wmean
+  rw [wsum_map_scale, wysum_map_scale, mul_div_mul_left _ _ hc.ne']
+
+/-! ### expectile -/
+
+theorem eSum_map_affine (α a b : K) (ha : 0 < a) (S : List (Obs K)) (u : K) :
+    eSum α (S.map fun o => (a * o.1 + b, o.2)) (a * u + b) = a * eSum α S u := by
+  induction S with
+  | nil => simp [eSum]
+  | cons o S ih =>
+    rw [List.map_cons, eSum_cons, eSum_cons, ih]
+    have hw : eWeight α (a * u + b) (a * o.1 + b, o.2) = eWeight α u o := by
+      unfold eWeight
+      simp only [affine_le_iff a b ha]
+    rw [hw]
+    ring
+
+theorem expectile_affine (α : K) (hα0 : 0 < α) (hα1 : α < 1) (a b : K) (ha : 0 < a)
+    (S : List (Obs K)) (hne : S ≠ []) (hpos : ∀ o ∈ S, 0 < o.2) :
+    expectile α (S.map fun o => (a * o.1 + b, o.2)) = a * expectile α S + b := by
+  symm
+  apply eSum_root_unique α hα0 hα1 _ (by simpa using hne)
+  · intro o ho
+    obtain ⟨o', ho', rfl⟩ := List.mem_map.mp ho
+    exact hpos o' ho'
+  · rw [eSum_map_affine α a b ha, eSum_expectile α hα0 hα1 S hne hpos, mul_zero]
+
+theorem eSum_map_scale (α c : K) (S : List (Obs K)) (u : K) :
+    eSum α (S.map fun o => (o.1, c * o.2)) u = c * eSum α S u := by
+  induction S with
+  | nil => simp [eSum]
+  | cons o S ih =>
+    rw [List.map_cons, eSum_cons, eSum_cons, ih]
+    have hw : eWeight α u (o.1, c * o.2) = eWeight α u o := rfl
+    rw [hw]
+    ring
+
+theorem expectile_scale (α : K) (hα0 : 0 < α) (hα1 : α < 1) (c : K) (hc : 0 < c)
+    (S : List (Obs K)) (hne : S ≠ []) (hpos : ∀ o ∈ S, 0 < o.2) :
+    expectile α (S.map fun o => (o.1, c * o.2)) = expectile α S := by
+  symm
+  apply eSum_root_unique α hα0 hα1 _ (by simpa using hne)
+  · intro o ho
+    obtain ⟨o', ho', rfl⟩ := List.mem_map.mp ho
+    exact mul_pos hc (hpos o' ho')
+  · rw [eSum_map_scale, eSum_expectile α hα0 hα1 S hne hpos, mul_zero]
+
+/-! ### quantiles -/
+
+theorem foldl_min_map {φ : K → K} (hφ : Monotone φ) (a : K) (l : List K) :
+    (l.map φ).foldl min (φ a) = φ (l.foldl min a) := by
+  induction l generalizing a with
+  | nil => rfl
+  | cons b l ih =>
+    simp only [List.map_cons, List.foldl_cons]
+    rw [← hφ.map_min, ih]
+
+theorem minD_map {φ : K → K} (hφ : Monotone φ) (d : K) (l : List K) (hl : l ≠ []) :
+    minD d (l.map φ) = φ (minD d l) := by
+  cases l with
+  | nil => exact absurd rfl hl
+  | cons a l => simp only [List.map_cons, minD, foldl_min_map hφ]
+
+theorem cntLe_map_affine (a b : K) (ha : 0 < a) (S : List (Obs K)) (u : K) :
+    cntLe (S.map fun o => (a * o.1 + b, o.2)) (a * u + b) = cntLe S u := by
+  unfold cntLe
+  rw [List.countP_map]
+  apply List.countP_congr
+  intro o _
+  simp [affine_le_iff a b ha]
+
+theorem qCands_map_affine (α a b : K) (ha : 0 < a) (S : List (Obs K)) :
+    qCands α (S.map fun o => (a * o.1 + b, o.2)) = (qCands α S).map (fun v => a * v + b) := by
+  unfold qCands
+  have e : (S.map fun o => ((a * o.1 + b, o.2) : Obs K)).map (·.1)
+      = (S.map (·.1)).map (fun v => a * v + b) := by
+    simp [Function.comp_def]
+  rw [e, List.filter_map]
+  congr 1
+  apply List.filter_congr
+  intro v _
+  simp only [Function.comp, List.length_map, cntLe_map_affine a b ha]
+
+theorem qLower_affine (α : K) (hα1 : α < 1) (a b : K) (ha : 0 < a) (S : List (Obs K))
+    (hne : S ≠ []) :
+    qLower α (S.map fun o => (a * o.1 + b, o.2)) = a * qLower α S + b := by
+  unfold qLower
+  rw [qCands_map_affine α a b ha,
+    minD_map (affine_strictMono a b ha).monotone 0 _ (qCands_ne α hα1 S hne)]
+
+theorem negObs_map_affine (a b : K) (S : List (Obs K)) :
+    negObs (S.map fun o => (a * o.1 + b, o.2)) = (negObs S).map fun o => (a * o.1 + (-b), o.2) := by
+  simp only [negObs, List.map_map]
+  apply List.map_congr_left
+  intro o _
+  simp only [Function.comp]
+  congr 1
+  ring
+
+theorem qUpper_affine (α : K) (hα0 : 0 < α) (a b : K) (ha : 0 < a) (S : List (Obs K))
+    (hne : S ≠ []) :
+    qUpper α (S.map fun o => (a * o.1 + b, o.2)) = a * qUpper α S + b := by
+  unfold qUpper
+  rw [negObs_map_affine, qLower_affine (1 - α) (by linarith) a (-b) ha _ (negObs_ne hne)]
+  ring
+
+end Instances
+
+/-! ## 4c. Equivariance of the fits -/
+
+section Fits
+variable {K : Type} [Field K] [LinearOrder K] [IsStrictOrderedRing K]
+
+/-- positive affine maps of `y`: the mean fit -/
+theorem fit_affine_mean (a b : K) (ha : 0 < a) (ys : List (Obs K)) (hpos : ∀ o ∈ ys, 0 < o.2) :
+    expand (gpava wmean (ys.map fun o => (a * o.1 + b, o.2)))
+        = (expand (gpava wmean ys)).map (fun v => a * v + b) ∧
+      bounds (gpava wmean (ys.map fun o => (a * o.1 + b, o.2))) = bounds (gpava wmean ys) := by
+  have h := gpava_map (ok := fun o => 0 < o.2) (fun v => a * v + b) (affine_strictMono a b ha)
+    (fun o => (a * o.1 + b, o.2)) (fun _ => rfl) wmean wmean
+    (fun S hne hS => wmean_affine a b S hne hS) ys hpos
+  rw [h]
+  exact ⟨expand_mapBlk _ (fun v => a * v + b) _, bounds_mapBlk _ (fun v => a * v + b) _⟩
+
+/-- positive affine maps of `y`: the expectile fit -/
+theorem fit_affine_expectile (α : K) (hα0 : 0 < α) (hα1 : α < 1) (a b : K) (ha : 0 < a)
+    (ys : List (Obs K)) (hpos : ∀ o ∈ ys, 0 < o.2) :
+    expand (gpava (expectile α) (ys.map fun o => (a * o.1 + b, o.2)))
+        = (expand (gpava (expectile α) ys)).map (fun v => a * v + b) ∧
+      bounds (gpava (expectile α) (ys.map fun o => (a * o.1 + b, o.2)))
+        = bounds (gpava (expectile α) ys) := by
+  have h := gpava_map (ok := fun o => 0 < o.2) (fun v => a * v + b) (affine_strictMono a b ha)
+    (fun o => (a * o.1 + b, o.2)) (fun _ => rfl) (expectile α) (expectile α)
+    (fun S hne hS => expectile_affine α hα0 hα1 a b ha S hne hS) ys hpos
+  rw [h]
+  exact ⟨expand_mapBlk _ (fun v => a * v + b) _, bounds_mapBlk _ (fun v => a * v + b) _⟩
+
+/-- rescaling all weights: the mean fit -/
+theorem fit_weight_scale_mean (c : K) (hc : 0 < c) (ys : List (Obs K))
+    (hpos : ∀ o ∈ ys, 0 < o.2) :
+    expand (gpava wmean (ys.map fun o => (o.1, c * o.2))) = expand (gpava wmean ys) ∧
+      bounds (gpava wmean (ys.map fun o => (o.1, c * o.2))) = bounds (gpava wmean ys) := by
+  have h := gpava_map (ok := fun o => 0 < o.2) (fun v : K => v) (fun _ _ h => h)
+    (fun o => (o.1, c * o.2)) (fun _ => rfl) wmean wmean
+    (fun S _ _ => wmean_scale c hc S) ys hpos
+  rw [h]
+  refine ⟨?_, bounds_mapBlk _ (fun v : K => v) _⟩
+  rw [expand_mapBlk _ (fun v : K => v)]
+  simp
+
+/-- rescaling all weights: the expectile fit -/
+theorem fit_weight_scale_expectile (α : K) (hα0 : 0 < α) (hα1 : α < 1) (c : K) (hc : 0 < c)
+    (ys : List (Obs K)) (hpos : ∀ o ∈ ys, 0 < o.2) :
+    expand (gpava (expectile α) (ys.map fun o => (o.1, c * o.2)))
+        = expand (gpava (expectile α) ys) ∧
+      bounds (gpava (expectile α) (ys.map fun o => (o.1, c * o.2)))
+        = bounds (gpava (expectile α) ys) := by
+  have h := gpava_map (ok := fun o => 0 < o.2) (fun v : K => v) (fun _ _ h => h)
+    (fun o => (o.1, c * o.2)) (fun _ => rfl) (expectile α) (expectile α)
+    (fun S hne hS => expectile_scale α hα0 hα1 c hc S hne hS) ys hpos
+  rw [h]
+  refine ⟨?_, bounds_mapBlk _ (fun v : K => v) _⟩
+  rw [expand_mapBlk _ (fun v : K => v)]
+  simp
+
+/-! ### the quantile stage -/
+
+theorem quantileFit_snd (α : K) (ys : List (Obs K)) :
+    (quantileFit α ys).2 = runBounds (quantileFit α ys).1 := rfl
+
+theorem go_map_inj {φ : K → K} (hφ : Function.Injective φ) (i : Nat) (x : List K) :
+    runBounds.go i (x.map φ) = runBounds.go i x := by
+  induction x generalizing i with
+  | nil => simp [go_nil]
+  | cons a x ih =>
+    cases x with
+    | nil => simp [go_single]
+    | cons b t =>
+      have ih' := ih (i + 1)
+      simp only [List.map_cons] at ih' ⊢
+      rw [go_cons_cons, go_cons_cons, ih']
+      by_cases h : a = b
+      · rw [if_pos h, if_pos (by rw [h])]
+      · rw [if_neg h, if_neg (fun h' => h (hφ h'))]
+
+theorem runBounds_map_inj {φ : K → K} (hφ : Function.Injective φ) (x : List K) :
+    runBounds (x.map φ) = runBounds x := by
+  rw [runBounds_eq, runBounds_eq, go_map_inj hφ, List.length_map]
+
+theorem minAccRight_map {φ : K → K} (hφ : Monotone φ) (q : List K) :
+    minAccRight (q.map φ) = (minAccRight q).map φ := by
+  induction q with
+  | nil => simp [minAccRight]
+  | cons a l ih =>
+    rw [List.map_cons, minAccRight_cons, minAccRight_cons, ih]
+    cases minAccRight l with
+    | nil => simp
+    | cons m t => simp [hφ.map_min]
+
+theorem bexp_map_blocks (g : Obs K → Obs K) (φ : K → K) (bl : List (Blk K)) (ms : List K) :
+    bexp (bl.map (fun b => (⟨b.data.map g, φ b.val⟩ : Blk K))) ms = bexp bl ms := by
+  induction bl generalizing ms with
+  | nil => simp
+  | cons b bl ih =>
+    cases ms with
+    | nil => simp
+    | cons m ms => simp [ih]
+
+theorem bexp_map_vals (φ : K → K) (bl : List (Blk K)) (ms : List K) :
+    bexp bl (ms.map φ) = (bexp bl ms).map φ := by
+  induction bl generalizing ms with
+  | nil => simp
+  | cons b bl ih =>
+    cases ms with
+    | nil => simp
+    | cons m ms => simp [ih]
+
+theorem zipWith_mid_affine (a b : K) (A B : List K) :
+    List.zipWith (fun u v => half * (u + v)) (A.map fun v => a * v + b) (B.map fun v => a * v + b)
+      = (List.zipWith (fun u v => half * (u + v)) A B).map (fun v => a * v + b) := by
+  rw [List.zipWith_map, List.map_zipWith]
+  congr 1
+  funext u v
+  rw [half_eq]
+  ring
+
+theorem qMids_map_affine (α : K) (hα0 : 0 < α) (a b : K) (ha : 0 < a) (bl : List (Blk K))
+    (hne : ∀ b' ∈ bl, b'.data ≠ []) :
+    qMids α (bl.map (fun b' => (⟨b'.data.map (fun o => (a * o.1 + b, o.2)), a * b'.val + b⟩ : Blk K)))
+      = (qMids α bl).map (fun v => a * v + b) := by
+  unfold qMids
+  have e1 : (bl.map (fun b' => (⟨b'.data.map (fun o => (a * o.1 + b, o.2)), a * b'.val + b⟩ : Blk K))).map
+      (·.val) = (bl.map (·.val)).map (fun v => a * v + b) := by
+    simp [Function.comp_def]
+  have e2 : (bl.map (fun b' => (⟨b'.data.map (fun o => (a * o.1 + b, o.2)), a * b'.val + b⟩ : Blk K))).map
+      (fun b' => qUpper α b'.data) = (bl.map (fun b' => qUpper α b'.data)).map (fun v => a * v + b) := by
+    rw [List.map_map, List.map_map]
+    apply List.map_congr_left
+    intro b' hb'
+    simp only [Function.comp]
+    exact qUpper_affine α hα0 a b ha b'.data (hne b' hb')
+  rw [e1, e2, minAccRight_map (affine_strictMono a b ha).monotone, zipWith_mid_affine]
+
+/-- positive affine maps of `y`: the quantile fit (values transform, block vector unchanged) -/
+theorem fit_affine_quantile (α : K) (hα0 : 0 < α) (hα1 : α < 1) (a b : K) (ha : 0 < a)
+    (ys : List (Obs K)) :
+    quantileFit α (ys.map fun o => (a * o.1 + b, o.2))
+      = ((quantileFit α ys).1.map (fun v => a * v + b), (quantileFit α ys).2) := by
+  have h := gpava_map (ok := fun _ => True) (fun v => a * v + b) (affine_strictMono a b ha)
+    (fun o => (a * o.1 + b, o.2)) (fun _ => rfl) (qLower α) (qLower α)
+    (fun S hne _ => qLower_affine α hα1 a b ha S hne) ys (fun _ _ => trivial)
+  obtain ⟨hg, _, _⟩ := gpava_quant_spec α hα0 hα1 ys
+  have h1 : (quantileFit α (ys.map fun o => (a * o.1 + b, o.2))).1
+      = (quantileFit α ys).1.map (fun v => a * v + b) := by
+    rw [quantileFit_fst, quantileFit_fst, h, bexp_map_blocks _ (fun v => a * v + b),
+      qMids_map_affine α hα0 a b ha _ (fun b' hb' => (hg b' hb').1), bexp_map_vals]
+  apply Prod.ext
+  · exact h1
+  · rw [quantileFit_snd, h1, runBounds_map_inj (affine_strictMono a b ha).injective]
+    rfl
+
+/-! ### monotone input and idempotence for the quantile stage -/
+
+theorem minAccRight_of_sorted (q : List K) (h : q.Pairwise (· ≤ ·)) : minAccRight q = q := by
+  induction q with
+  | nil => simp [minAccRight]
+  | cons a l ih =>
+    obtain ⟨h1, h2⟩ := List.pairwise_cons.mp h
+    rw [minAccRight_cons, ih h2]
+    cases l with
+    | nil => rfl
+    | cons m t => simp [min_eq_left (h1 m (by simp))]
+
+theorem zipWith_mid_self (A : List K) :
+    List.zipWith (fun u v => half * (u + v)) A A = A := by
+  induction A with
+  | nil => rfl
+  | cons x A ih =>
+    simp only [List.zipWith_cons_cons, ih]
+    congr 1
+    rw [half_eq]; ring
+
+theorem qUpper_of_const (α : K) (hα0 : 0 < α) (d : List (Obs K)) (hne : d ≠ []) (c : K)
+    (h : ∀ o ∈ d, o.1 = c) : qUpper α d = c := by
+  obtain ⟨o, ho, he⟩ := List.mem_map.mp (qUpper_mem α hα0 d hne)
+  rw [← he]; exact h o ho
+
+/-- **monotone input is left unchanged by the quantile stage** -/
+theorem quantileFit_sorted_fixed (α : K) (hα0 : 0 < α) (hα1 : α < 1) (ys : List (Obs K))
+    (hs : (ys.map (·.1)).Pairwise (· ≤ ·)) : (quantileFit α ys).1 = ys.map (·.1) := by
+  have hT := (quantFun α hα0 hα1).internal
+  have hok : ∀ o ∈ ys, (quantFun α hα0 hα1).ok o := fun _ _ => trivial
+  obtain ⟨hg, hpw, hflat⟩ := gpava_quant_spec α hα0 hα1 ys
+  have hconst : ∀ b ∈ gpava (qLower α) ys, ∀ o ∈ b.data, o.1 = b.val :=
+    gpava_sorted_blocks hT ys hok hs
+  have hq : (gpava (qLower α) ys).map (fun b => qUpper α b.data)
+      = (gpava (qLower α) ys).map (·.val) :=
+    List.map_congr_left (fun b hb => qUpper_of_const α hα0 b.data (hg b hb).1 b.val (hconst b hb))
+  have hsorted : ((gpava (qLower α) ys).map (·.val)).Pairwise (· ≤ ·) := by
+    rw [List.pairwise_map]
+    exact hpw.imp (fun h => h.le)
+  have hm : qMids α (gpava (qLower α) ys) = (gpava (qLower α) ys).map (·.val) := by
+    unfold qMids
+    rw [hq, minAccRight_of_sorted _ hsorted, zipWith_mid_self]
+  rw [quantileFit_fst, hm, ← expand_eq_bexp]
+  exact gpava_sorted_fixed hT ys hok hs
+
+/-- **idempotence of the quantile stage** (fitted values and block vector) -/
+theorem quantileFit_idempotent (α : K) (hα0 : 0 < α) (hα1 : α < 1) (ys : List (Obs K)) :
+    quantileFit α (List.zip (quantileFit α ys).1 (ys.map (·.2))) = quantileFit α ys := by
+  have hlen := quantileFit_length α hα0 hα1 ys
+  have hfst := map_fst_zip_snd _ ys hlen
+  have h1 : (quantileFit α (List.zip (quantileFit α ys).1 (ys.map (·.2)))).1 = (quantileFit α ys).1 := by
+    rw [quantileFit_sorted_fixed α hα0 hα1 _ (by rw [hfst]; exact quantileFit_sorted α hα0 hα1 ys),
+      hfst]
+  apply Prod.ext
+  · exact h1
+  · rw [quantileFit_snd, h1]; rfl
+
+end Fits
 
 end MD
